@@ -15,6 +15,7 @@ import JP.Rfc9535
 import JP.RegexImpl
 import JP.Fluent
 import JP.Typing
+import JP.Projection
 open Lean JP
 
 namespace Drv
@@ -454,6 +455,28 @@ def handle (req : Json) : Except String Json := do
     let tbl := Typing.tableOfGenerated Generated.functions
     pure (Json.mkObj [("wt", .bool (Rfc.wtSegs path.segs)), ("gate", .bool (Typing.gateSegs tbl path.segs)),
                       ("scope", .bool (Rfc.stdSegs path.segs && Typing.cmpAtomicSegs path.segs && Typing.wfDeepSegs path.segs))])
+  | "proj.select" =>
+    let styleS ← req.getObjValAs? String "style"
+    let style : Projection.Style ← match styleS with
+      | "RELATIVE" => pure Projection.Style.relative
+      | "FLAT" => pure Projection.Style.flat
+      | "ROOT" => pure Projection.Style.root
+      | o => throw s!"bad style {o}"
+    let mparts ← getParts req "match_parts"
+    let mval ← getJ req "match_val"
+    let selsJ ← req.getObjVal? "sels"
+    let .arr selsA := selsJ | throw "sels"
+    let sels ← selsA.toList.mapM (fun j => do
+      match j with
+      | .arr #[ps, v] => do
+        let ps' ← decParts ps
+        let v' ← decJ v
+        pure (ps', v')
+      | _ => throw "bad selection")
+    match Projection.select style mparts mval sels with
+    | none => pure (Json.mkObj [("none", .null)])
+    | some none => pure (Json.mkObj [("outside", .null)])
+    | some (some r) => pure (Json.mkObj [("ok", encJ r)])
   | "q.slice" =>
     let len ← req.getObjValAs? Nat "len"
     let a ← optInt (← req.getObjVal? "a")
